@@ -8,6 +8,7 @@
 From Coq Require Import List Bool Arith ZArith QArith Qminmax Qabs Lia Lqa.
 From ME Require Import Model.Prelude Model.Regex Model.Intervals Model.ChordParse Model.ChordCmp Model.ChordScore Model.ChordPipeline
   Gen.ChordTables.
+From ME Require Import Proofs.RegexLang Proofs.ChordRegex Proofs.ChordTotal Proofs.ChordRoundTrip.
 From ME Require Import Proofs.ChordLattice Proofs.ChordSound Proofs.ChordTranspose.
 From ME Require Import Proofs.ChordScoreProps Proofs.IntervalsBase Proofs.IntervalsMerge Proofs.IntervalsAdjust Proofs.SplitInvariance.
 Import ListNotations.
@@ -993,10 +994,10 @@ Proof.
   destruct H as (mr & me & ivs & rl2 & el2 & durations & encs & accs & du & dov & Emr & Eme & Em & Edur & Eenc & Eacc & Eu & Eo & ->).
   unfold chord_evaluate. rewrite flat_shift, qmin_list_shift, qmax_list_shift, E1, E2. cbn [option_map]. unfold shq.
   unfold str in *. rewrite adjust_shift, E3. cbn [map_res bind shr fst snd].
-  unfold chord_scores. rewrite !merge_chord_intervals_shift, Emr, Eme. cbn [map_res bind].
-  rewrite merge_labeled_shift, Em. cbn [map_res bind shm fst snd].
+  unfold chord_scores. unfold str in *. rewrite !merge_chord_intervals_shift, Emr, Eme. cbn [map_res bind].
+  rewrite merge_labeled_shift. unfold str in *. rewrite Em. cbn [map_res bind shm fst snd].
   unfold intervals_to_durations in *. destruct (validate_intervals ivs) as [[]|] eqn:Ev; cbn [bind] in Edur; [|discriminate Edur].
-  injection Edur as <-.
+  apply Ok_inj in Edur. subst durations.
   destruct (validate_shift d ivs Ev) as [V|[V Hd]]; rewrite V; cbn [bind]; [|right; auto].
   rewrite Eenc. cbn [bind].
   assert (Hdur : Forall2 Qeq (map (fun v : Q * Q => Qabs (snd v - fst v)) (map (sh d) ivs)) (map (fun v : Q * Q => Qabs (snd v - fst v)) ivs)).
@@ -1006,7 +1007,8 @@ Proof.
   match type of Hacc with ?P -> _ => assert (HP : P) by (intros c _; unfold acc_of, wa; apply wa_q_weights_eq; exact Hdur) end.
   specialize (Hacc HP). fold (acc_of encs (map (fun v : Q * Q => Qabs (snd v - fst v)) (map (sh d) ivs))).
   unfold acc_of in Eacc, Hacc |- *. rewrite Eacc in Hacc.
-  destruct (mapM _ rules) as [accs'|] eqn:Eacc'; cbn [sres_eq] in Hacc; [|contradiction]. cbn [bind].
+  match type of Hacc with sres_eq ?m _ => repeat match goal with |- context [bind ?m' _] => progress change m' with m end;
+    destruct m as [accs'|] eqn:Eacc' end; cbn [sres_eq] in Hacc; [|contradiction]. cbn [bind].
   destruct (dhd_arrays_shift d me mr du Eu) as [(du' & Eu' & Xu)|[Eu' Hd]]; rewrite Eu'; cbn [bind]; [|right; auto].
   destruct (dhd_arrays_shift d mr me dov Eo) as [(dov' & Eo' & Xo)|[Eo' Hd]]; rewrite Eo'; cbn [bind]; [|right; auto].
   left. eexists. split; [reflexivity|]. apply Forall2_app; [exact Hacc|].
@@ -1031,6 +1033,304 @@ Example chord_evaluate_shift_ex :
   /\ chord_evaluate (map (sh (-(1))) ri) rl (map (sh (-(1))) ei) el = Raise ValueError.
 Proof. cbv zeta. split; [vm_compute; repeat constructor|]. split; [eexists; vm_compute; reflexivity|vm_compute; reflexivity]. Qed.
 
+
+(* ====================================================================================================== *)
+(* (d) C09: transposing / respelling the roots of all reference and estimate labels by the same interval   *)
+(* ====================================================================================================== *)
+(* l' is l with its root moved up k semitones (N and X stay): same syntax check, and both encodings (with and without
+   reduce_extended_chords) differ by `tr k` only, failures being the same failures *)
+Definition tr_label (k : Z) (l l' : str) : Prop :=
+  validate_label l' = validate_label l /\
+  forall reduce, map_res of_enc (encode l' reduce false) = map_res (fun e => tr k (of_enc e)) (encode l reduce false).
+
+Definition res_rel {A B} (R : A -> B -> Prop) (x : res A) (y : res B) : Prop :=
+  match x, y with Ok a, Ok b => R a b | Raise e, Raise e' => e = e' | _, _ => False end.
+Definition opt_rel {A B} (R : A -> B -> Prop) (x : option A) (y : option B) : Prop :=
+  match x, y with Some a, Some b => R a b | None, None => True | _, _ => False end.
+Definition adj_rel {L L'} (R : L -> L' -> Prop) (r : list iv * option (list L)) (r' : list iv * option (list L')) : Prop :=
+  fst r = fst r' /\ opt_rel (Forall2 R) (snd r) (snd r').
+
+Lemma Forall2_skipn {A B} (R : A -> B -> Prop) : forall k l l', Forall2 R l l' -> Forall2 R (skipn k l) (skipn k l').
+Proof. induction k as [|k IH]; intros l l' H; [exact H|]. destruct H; [constructor|]. cbn [skipn]. apply IH. assumption. Qed.
+Lemma Forall2_firstn {A B} (R : A -> B -> Prop) : forall k l l', Forall2 R l l' -> Forall2 R (firstn k l) (firstn k l').
+Proof. induction k as [|k IH]; intros l l' H; [constructor|]. destruct H; [constructor|]. cbn [firstn]. constructor; [assumption|]. apply IH. assumption. Qed.
+Lemma opt_rel_map {A B} (R : list A -> list B -> Prop) (f : list A -> list A) (g : list B -> list B) x y :
+  (forall a b, R a b -> R (f a) (g b)) -> opt_rel R x y -> opt_rel R (option_map f x) (option_map g y).
+Proof. intros H. destruct x, y; cbn; auto. Qed.
+
+Section LabelRel.
+Context {L L' : Type}.
+Variable R : L -> L' -> Prop.
+Variables (N : L) (N' : L').
+Hypothesis RN : R N N'.
+
+Lemma min_tail_rel t ivs labs labs' : opt_rel (Forall2 R) labs labs' -> res_rel (adj_rel R) (min_tail N t ivs labs) (min_tail N' t ivs labs').
+Proof.
+  intros H. unfold min_tail. cbv zeta. destruct (qmin_list _) as [mn|]; [|reflexivity]. destruct (qltb t mn); cbn [res_rel]; split; cbn [fst snd]; auto.
+  apply opt_rel_map; [|exact H]. intros a b Hab. constructor; assumption.
+Qed.
+Lemma max_tail_rel t ivs labs labs' : opt_rel (Forall2 R) labs labs' -> res_rel (adj_rel R) (max_tail N t ivs labs) (max_tail N' t ivs labs').
+Proof.
+  intros H. unfold max_tail. cbv zeta. destruct (qmax_list _) as [mx|]; [|reflexivity]. destruct (qltb mx t); cbn [res_rel]; split; cbn [fst snd]; auto.
+  apply opt_rel_map; [|exact H]. intros a b Hab. apply Forall2_app; [assumption|]. constructor; [assumption|constructor].
+Qed.
+Lemma step_min_rel t ivs labs labs' : opt_rel (Forall2 R) labs labs' -> res_rel (adj_rel R) (step_min N t ivs labs) (step_min N' t ivs labs').
+Proof.
+  intros H. rewrite !step_min_tail. destruct (find_idx (fun i : Q * Q => qltb t (snd i)) ivs) as [k|]; apply min_tail_rel; [|exact H].
+  apply opt_rel_map; [|exact H]. intros a b. apply Forall2_skipn.
+Qed.
+Lemma step_max_rel t ivs labs labs' : opt_rel (Forall2 R) labs labs' -> res_rel (adj_rel R) (step_max N t ivs labs) (step_max N' t ivs labs').
+Proof.
+  intros H. rewrite !step_max_tail. destruct (find_idx (fun i : Q * Q => Qle_bool t (fst i)) ivs) as [k|]; apply max_tail_rel; [|exact H].
+  apply opt_rel_map; [|exact H]. intros a b. apply Forall2_firstn.
+Qed.
+Lemma adjust_rel ivs labs labs' a b : Forall2 R labs labs' ->
+  res_rel (adj_rel R) (adjust_intervals N N ivs (Some labs) (Some a) (Some b)) (adjust_intervals N' N' ivs (Some labs') (Some a) (Some b)).
+Proof.
+  intros H. destruct ivs as [|v0 r].
+  - cbn. split; cbn; [reflexivity|]. constructor; [exact RN|constructor].
+  - rewrite !adjust_nonempty by discriminate. cbn [stage1 stage2].
+    pose proof (step_min_rel a (v0 :: r) (Some labs) (Some labs') H) as H1.
+    destruct (step_min N a (v0 :: r) (Some labs)) as [[o ol]|e], (step_min N' a (v0 :: r) (Some labs')) as [[o' ol']|e'];
+      cbn [res_rel] in H1; try contradiction; cbn [bind fst snd].
+    + destruct H1 as [E Hol]. cbn [fst snd] in E, Hol. subst o'. apply step_max_rel. exact Hol.
+    + exact H1.
+Qed.
+End LabelRel.
+
+Lemma Forall2_nth_error {A B} (R : A -> B -> Prop) : forall l l' k, Forall2 R l l' -> opt_rel R (nth_error l k) (nth_error l' k).
+Proof. intros l l' k H. revert k. induction H as [|x y l l' Hxy _ IH]; intros [|k]; cbn; auto. Qed.
+Lemma merge_pick_rel {L L'} (R : L -> L' -> Prop) ivs labs labs' t : Forall2 R labs labs' ->
+  res_rel R (merge_pick ivs labs t) (merge_pick ivs labs' t).
+Proof.
+  intros H. unfold merge_pick. rewrite <- (Forall2_len _ _ _ H). destruct (negb _); [reflexivity|].
+  destruct (last_idx (fun v : Q * Q => Qle_bool (fst v) t) ivs) as [k|]; [|reflexivity]. pose proof (Forall2_nth_error R labs labs' k H) as Hk.
+  destruct (nth_error labs k), (nth_error labs' k); cbn in Hk |- *; try contradiction; auto.
+Qed.
+Lemma mapM_rel {A B B'} (f : A -> res B) (f' : A -> res B') (R : B -> B' -> Prop) : forall l,
+  (forall x, In x l -> res_rel R (f x) (f' x)) -> res_rel (Forall2 R) (mapM f l) (mapM f' l).
+Proof.
+  induction l as [|x l IH]; intros H; [cbn; constructor|]. cbn [mapM].
+  pose proof (H x (or_introl eq_refl)) as Hx. specialize (IH (fun y Hy => H y (or_intror Hy))).
+  destruct (f x), (f' x); cbn [res_rel] in Hx; try contradiction; [|exact Hx].
+  destruct (mapM f l), (mapM f' l); cbn [res_rel] in IH |- *; try contradiction; [constructor; assumption|exact IH].
+Qed.
+Lemma mapM_rel2 {A A' B B'} (f : A -> res B) (f' : A' -> res B') (P : A -> A' -> Prop) (R : B -> B' -> Prop) : forall l l',
+  Forall2 P l l' -> (forall x x', P x x' -> res_rel R (f x) (f' x')) -> res_rel (Forall2 R) (mapM f l) (mapM f' l').
+Proof.
+  intros l l' HF H. induction HF as [|x x' l l' Hx _ IH]; [cbn; constructor|]. cbn [mapM]. specialize (H x x' Hx).
+  destruct (f x), (f' x'); cbn [res_rel] in H; try contradiction; [|exact H].
+  destruct (mapM f l), (mapM f' l'); cbn [res_rel] in IH |- *; try contradiction; [constructor; assumption|exact IH].
+Qed.
+Lemma Forall2_map_fst {A A' B B'} (R : A -> A' -> Prop) (S : B -> B' -> Prop) (l : list (A * B)) (l' : list (A' * B')) :
+  Forall2 (fun p p' => R (fst p) (fst p') /\ S (snd p) (snd p')) l l' -> Forall2 R (map fst l) (map fst l') /\ Forall2 S (map snd l) (map snd l').
+Proof. induction 1 as [|p p' l l' [H1 H2] _ [IH1 IH2]]; cbn [map]; split; constructor; assumption. Qed.
+Definition merged_rel {L L'} (R : L -> L' -> Prop) (m : list iv * list L * list L) (m' : list iv * list L' * list L') : Prop :=
+  fst (fst m) = fst (fst m') /\ Forall2 R (snd (fst m)) (snd (fst m')) /\ Forall2 R (snd m) (snd m').
+Lemma merge_labeled_rel {L L'} (R : L -> L' -> Prop) xi xl xl' yi yl yl' : Forall2 R xl xl' -> Forall2 R yl yl' ->
+  res_rel (merged_rel R) (merge_labeled_intervals xi xl yi yl) (merge_labeled_intervals xi xl' yi yl').
+Proof.
+  intros Hx Hy. destruct xi as [|x0 rx]; [reflexivity|]. destruct yi as [|y0 ry]; [reflexivity|]. unfold merge_labeled_intervals.
+  destruct (negb _ || negb _); [reflexivity|].
+  match goal with |- res_rel _ (bind (mapM ?f ?l) _) (bind (mapM ?f' _) _) =>
+    pose proof (mapM_rel f f' (fun p p' => R (fst p) (fst p') /\ R (snd p) (snd p')) l) as HM end.
+  match type of HM with ?P -> _ => assert (HP : P) end.
+  { intros o _. pose proof (merge_pick_rel R (x0 :: rx) xl xl' (fst o) Hx) as H1. pose proof (merge_pick_rel R (y0 :: ry) yl yl' (fst o) Hy) as H2.
+    destruct (merge_pick (x0 :: rx) xl (fst o)), (merge_pick (x0 :: rx) xl' (fst o)); cbn [res_rel] in H1; try contradiction; cbn [bind]; [|exact H1].
+    destruct (merge_pick (y0 :: ry) yl (fst o)), (merge_pick (y0 :: ry) yl' (fst o)); cbn [res_rel] in H2; try contradiction; cbn [bind res_rel]; auto. }
+  specialize (HM HP). destruct (mapM _ _) as [pl|e], (mapM _ _) as [pl'|e']; cbn [res_rel] in HM; try contradiction; cbn [bind res_rel]; [|exact HM].
+  destruct (Forall2_map_fst _ _ _ _ HM) as [A B]. split; [reflexivity|]. split; assumption.
+Qed.
+
+(* ---- the encodings *)
+Definition enc_tr (k : Z) (e e' : enc) : Prop := enc_ok (of_enc e) /\ of_enc e' = tr k (of_enc e).
+Lemma tr_label_encode k l l' reduce : tr_label k l l' -> res_rel (enc_tr k) (encode l reduce false) (encode l' reduce false).
+Proof.
+  intros [_ H]. specialize (H reduce). destruct (encode l reduce false) as [e|x] eqn:E, (encode l' reduce false) as [e'|x']; cbn [map_res] in H; try discriminate H; cbn [res_rel].
+  - split; [eapply encode_enc_ok; exact E|congruence].
+  - congruence.
+Qed.
+Lemma encode_many_tr k ls ls' reduce : Forall2 (tr_label k) ls ls' -> res_rel (Forall2 (enc_tr k)) (encode_many ls reduce) (encode_many ls' reduce).
+Proof. intros H. unfold encode_many. eapply mapM_rel2; [exact H|]. intros x x' Hx. apply tr_label_encode. exact Hx. Qed.
+Lemma enc_eqb_cenc a b : enc_eqb a b = eq_root (of_enc a) (of_enc b) && eq_all (of_enc a) (of_enc b) && eq_bass (of_enc a) (of_enc b).
+Proof. destruct a as [[r1 b1] s1], b as [[r2 b2] s2]. reflexivity. Qed.
+Lemma enc_eqb_tr k a a' b b' : enc_tr k a a' -> enc_tr k b b' -> enc_eqb a' b' = enc_eqb a b.
+Proof.
+  intros [Oa Ea] [Ob Eb]. rewrite !enc_eqb_cenc, Ea, Eb, tr_eq_root, tr_eq_all, tr_eq_bass by assumption. reflexivity.
+Qed.
+Lemma fuse_tr k : forall (ivs : list iv) encs encs' prev prev' cur, Forall2 (enc_tr k) encs encs' -> enc_tr k prev prev' ->
+  fuse prev' cur (combine ivs encs') = fuse prev cur (combine ivs encs).
+Proof.
+  induction ivs as [|v ivs IH]; intros encs encs' prev prev' cur H Hp; [reflexivity|].
+  destruct H as [|e e' encs encs' He H]; [reflexivity|]. cbn [combine fuse]. rewrite (enc_eqb_tr k e e' prev prev' He Hp).
+  destruct (enc_eqb e prev); [apply IH; assumption|]. f_equal. apply IH; assumption.
+Qed.
+Lemma merge_chord_intervals_tr k ivs ls ls' : Forall2 (tr_label k) ls ls' -> merge_chord_intervals ivs ls' = merge_chord_intervals ivs ls.
+Proof.
+  intros H. unfold merge_chord_intervals. pose proof (encode_many_tr k ls ls' true H) as HE.
+  destruct (encode_many ls true) as [encs|x], (encode_many ls' true) as [encs'|x']; cbn [res_rel] in HE; try contradiction; cbn [bind]; [|congruence].
+  f_equal. destruct ivs as [|v ivs]; [reflexivity|]. destruct HE as [|e e' encs encs' He HE]; [reflexivity|]. cbn [combine fuse_rows].
+  apply (fuse_tr k ivs encs encs' e e' v HE He).
+Qed.
+Lemma mapM_Forall2_eq {A B} (f : A -> res B) : forall l l', Forall2 (fun x x' => f x' = f x) l l' -> mapM f l' = mapM f l.
+Proof. induction 1 as [|x x' l l' Hx _ IH]; [reflexivity|]. cbn [mapM]. rewrite Hx, IH. reflexivity. Qed.
+Definition pair_tr (k : Z) (p p' : cenc * cenc) : Prop :=
+  enc_ok (fst p) /\ enc_ok (snd p) /\ fst p' = tr k (fst p) /\ snd p' = tr k (snd p).
+Lemma combine_pair_tr k : forall er er' ee ee', Forall2 (enc_tr k) er er' -> Forall2 (enc_tr k) ee ee' ->
+  Forall2 (pair_tr k) (combine (map of_enc er) (map of_enc ee)) (combine (map of_enc er') (map of_enc ee')).
+Proof.
+  intros er er' ee ee' H. revert ee ee'. induction H as [|a a' er er' [Oa Ea] _ IH]; intros ee ee' H'; [constructor|].
+  destruct H' as [|b b' ee ee' [Ob Eb] H']; [constructor|]. cbn [map combine]. constructor; [|apply IH; exact H'].
+  unfold pair_tr. cbn [fst snd]. auto.
+Qed.
+Lemma encode_pairs_tr k rl rl' el el' : Forall2 (tr_label k) rl rl' -> Forall2 (tr_label k) el el' ->
+  res_rel (Forall2 (pair_tr k)) (encode_pairs rl el) (encode_pairs rl' el').
+Proof.
+  intros Hr He. unfold encode_pairs. rewrite <- (Forall2_len _ _ _ Hr), <- (Forall2_len _ _ _ He).
+  destruct (negb _); [reflexivity|].
+  rewrite (mapM_Forall2_eq validate_label rl rl') by (eapply Forall2_impl_In; [|exact Hr]; intros a b _ [E _]; exact E).
+  rewrite (mapM_Forall2_eq validate_label el el') by (eapply Forall2_impl_In; [|exact He]; intros a b _ [E _]; exact E).
+  destruct (mapM validate_label rl); [|reflexivity]. cbn [bind]. destruct (mapM validate_label el); [|reflexivity]. cbn [bind].
+  pose proof (encode_many_tr k rl rl' false Hr) as H1. pose proof (encode_many_tr k el el' false He) as H2.
+  destruct (encode_many rl false), (encode_many rl' false); cbn [res_rel] in H1; try contradiction; cbn [bind]; [|exact H1].
+  destruct (encode_many el false), (encode_many el' false); cbn [res_rel] in H2; try contradiction; cbn [bind res_rel]; [|exact H2].
+  apply combine_pair_tr; assumption.
+Qed.
+Lemma comparisons_tr k c encs encs' : In c rules -> Forall2 (pair_tr k) encs encs' ->
+  map (fun x : cenc * cenc => c (fst x) (snd x)) encs' = map (fun x : cenc * cenc => c (fst x) (snd x)) encs.
+Proof.
+  intros Hc H. induction H as [|p p' l l' (O1 & O2 & E1 & E2) _ IH]; [reflexivity|]. cbn [map]. rewrite IH, E1, E2. f_equal.
+  apply compare_transpose; assumption.
+Qed.
+Lemma mapM_ext_in {A B} (f g : A -> res B) : forall l, (forall x, In x l -> f x = g x) -> mapM f l = mapM g l.
+Proof.
+  induction l as [|x l IH]; intros H; [reflexivity|]. cbn [mapM]. rewrite (H x (or_introl eq_refl)), IH; [reflexivity|].
+  intros y Hy. apply H. now right.
+Qed.
+
+Theorem chord_scores_transpose k ri rl rl' ei el el' : Forall2 (tr_label k) rl rl' -> Forall2 (tr_label k) el el' ->
+  chord_scores ri rl' ei el' = chord_scores ri rl ei el.
+Proof.
+  intros Hr He. unfold chord_scores. rewrite (merge_chord_intervals_tr k ri rl rl' Hr), (merge_chord_intervals_tr k ei el el' He).
+  destruct (merge_chord_intervals ri rl) as [mr|]; [|reflexivity]. cbn [bind].
+  destruct (merge_chord_intervals ei el) as [me|]; [|reflexivity]. cbn [bind].
+  pose proof (merge_labeled_rel (tr_label k) ri rl rl' ei el el' Hr He) as HM.
+  destruct (merge_labeled_intervals ri rl ei el) as [[[ivs rl2] el2]|x], (merge_labeled_intervals ri rl' ei el') as [[[ivs' rl2'] el2']|x'];
+    cbn [res_rel] in HM; try contradiction; cbn [bind]; [|congruence].
+  destruct HM as (E & H1 & H2). cbn [fst snd] in E, H1, H2. subst ivs'.
+  destruct (intervals_to_durations ivs) as [durations|]; [|reflexivity]. cbn [bind].
+  pose proof (encode_pairs_tr k rl2 rl2' el2 el2' H1 H2) as HP.
+  destruct (encode_pairs rl2 el2) as [encs|x], (encode_pairs rl2' el2') as [encs'|x']; cbn [res_rel] in HP; try contradiction; cbn [bind]; [|congruence].
+  rewrite (mapM_ext_in (fun c => wa (map (fun x : cenc * cenc => c (fst x) (snd x)) encs') durations)
+                       (fun c => wa (map (fun x : cenc * cenc => c (fst x) (snd x)) encs) durations) rules); [reflexivity|].
+  intros c Hc. rewrite (comparisons_tr k c encs encs' Hc HP). reflexivity.
+Qed.
+Lemma tr_label_N k : tr_label k NO_CHORD NO_CHORD.
+Proof. split; [reflexivity|]. intros reduce. rewrite encode_N. reflexivity. Qed.
+Lemma tr_label_X k : tr_label k X_CHORD X_CHORD.
+Proof. split; [reflexivity|]. intros reduce. rewrite encode_X. reflexivity. Qed.
+(* C09: all 15 scores -- and the exception, if any -- are literally the same *)
+Theorem chord_evaluate_transpose k ri rl rl' ei el el' : Forall2 (tr_label k) rl rl' -> Forall2 (tr_label k) el el' ->
+  chord_evaluate ri rl' ei el' = chord_evaluate ri rl ei el.
+Proof.
+  intros Hr He. unfold chord_evaluate. destruct (qmin_list (flat ri)) as [tmin|]; [|reflexivity]. destruct (qmax_list (flat ri)) as [tmax|]; [|reflexivity].
+  pose proof (adjust_rel (tr_label k) NO_CHORD NO_CHORD (tr_label_N k) ei el el' tmin tmax He) as HA. unfold str in *.
+  destruct (adjust_intervals NO_CHORD NO_CHORD ei (Some el) (Some tmin) (Some tmax)) as [[o ol]|x],
+           (adjust_intervals NO_CHORD NO_CHORD ei (Some el') (Some tmin) (Some tmax)) as [[o' ol']|x'];
+    cbn [res_rel] in HA; try contradiction; cbn [bind fst snd]; [|congruence].
+  destruct HA as [E Hol]. cbn [fst snd] in E, Hol. subst o'. destruct ol as [l|], ol' as [l'|]; cbn [opt_rel] in Hol; try contradiction; [|reflexivity].
+  apply (chord_scores_transpose k); assumption.
+Qed.
+
+(* ---- tr_label holds for every well-formed label whose root is respelt / transposed: the root enters both encodings
+   only through pitch_class_to_semitone (ChordTranspose.encode_tr covers reduce = False; here also reduce = True) *)
+Definition redq (x : str * str * list str * str) : str * str * list str * str :=
+  let '(rt, q, degs, bass) := x in let '(q', add) := reduce_extended_quality q in (rt, q', dedup (degs ++ add), bass).
+Lemma split_tail_reduce s om degs bass : split_tail s om degs bass true = map_res redq (split_tail s om degs bass false).
+Proof.
+  unfold split_tail. destruct (om && negb (has c_colon s)); [reflexivity|]. cbv zeta. destruct (has c_colon s).
+  - destruct (two (split_on c_colon s)) as [[rt qn]|]; cbn [bind map_res]; [|reflexivity]. unfold redq.
+    destruct (reduce_extended_quality _). reflexivity.
+  - cbn [bind map_res]. unfold redq. destruct (reduce_extended_quality _). reflexivity.
+Qed.
+Lemma split_mid_reduce s bass : split_mid s bass true = map_res redq (split_mid s bass false).
+Proof.
+  unfold split_mid. destruct (has c_lpar s).
+  - destruct (two (split_on c_lpar s)) as [[a sd]|]; cbn [bind map_res]; [apply split_tail_reduce|reflexivity].
+  - cbn [bind]. apply split_tail_reduce.
+Qed.
+Lemma split_reduce s : seqb s NO_CHORD = false -> split s true = map_res redq (split s false).
+Proof.
+  intros HN. rewrite !split_unfold. destruct (validate_label s) as [[]|]; cbn [bind map_res]; [|reflexivity].
+  unfold split_rest. rewrite HN. destruct (has c_slash s).
+  - destruct (two (split_on c_slash s)) as [[s' b]|]; cbn [bind map_res]; [apply split_mid_reduce|reflexivity].
+  - cbn [bind]. apply split_mid_reduce.
+Qed.
+Definition enc_after (reduce strict : bool) (x : str * str * list str * str) : res enc :=
+  (let '(rt, quality, degs, bass) := x in
+   root <- pitch_class_to_semitone rt ;;
+   b <- scale_degree_to_semitone bass ;; let bassn := b mod 12 in
+   bm <- quality_to_bitmap quality ;;
+   let bm := setnth bm 0%nat 1 in
+   bm <- fold_left (fun acc d => a <- acc ;; e <- scale_degree_to_bitmap d reduce ;; Ok (vadd a e)) degs (Ok bm) ;;
+   let bm := map (fun x => if 0 <? x then 1 else 0) bm in
+   if (nth (Z.to_nat bassn) bm 0 =? 0) && strict then Raise InvalidChord
+   else Ok (root, setnth bm (Z.to_nat bassn) 1, bassn))%Z.
+Lemma encode_after s reduce strict : seqb s NO_CHORD = false -> seqb s X_CHORD = false ->
+  encode s reduce strict = (p <- split s reduce ;; enc_after reduce strict p).
+Proof. intros HN HX. unfold encode. rewrite HN, HX. destruct (split s reduce) as [[[[rt q] degs] bass]|]; reflexivity. Qed.
+Lemma enc_after_root reduce strict rt rt' q degs bs v k :
+  pitch_class_to_semitone rt = Ok v -> pitch_class_to_semitone rt' = Ok ((v + k) mod 12)%Z ->
+  map_res of_enc (enc_after reduce strict (rt', q, degs, bs)) = map_res (fun e => tr k (of_enc e)) (enc_after reduce strict (rt, q, degs, bs)).
+Proof.
+  intros Ev Ev'. unfold enc_after. rewrite Ev, Ev'. cbn [bind].
+  destruct (scale_degree_to_semitone bs) as [b|]; cbn [bind map_res]; [|reflexivity].
+  destruct (quality_to_bitmap q) as [bm0|]; cbn [bind map_res]; [|reflexivity].
+  destruct (fold_left _ degs _) as [bm1|]; cbn [bind map_res]; [|reflexivity].
+  destruct (_ && strict); cbn [map_res of_enc]; [reflexivity|]. f_equal. unfold tr. cbn [root bm bass].
+  pose proof (pcs_range _ _ Ev). destruct (Z.eqb_spec v (-1)); [lia|reflexivity].
+Qed.
+Theorem tr_label_build rt rt' col dl bo v k : wf rt col dl bo -> lang h_root rt' ->
+  pitch_class_to_semitone rt = Ok v -> pitch_class_to_semitone rt' = Ok ((v + k) mod 12)%Z ->
+  tr_label k (build rt col dl bo) (build rt' col dl bo).
+Proof.
+  intros W R' Ev Ev'. assert (W' : wf rt' col dl bo) by (destruct W as (_ & A & B & C); repeat split; assumption).
+  destruct (build_head rt col dl bo (proj1 W)) as [HN HX]. destruct (build_head rt' col dl bo R') as [HN' HX']. split.
+  - rewrite !(proj2 (validate_label_iff_harte _)) by (apply build_lang; assumption). reflexivity.
+  - intros reduce. rewrite !encode_after by assumption. destruct reduce.
+    + rewrite !split_reduce, !split_build by assumption. cbn [map_res]. unfold redq. destruct (reduce_extended_quality _) as [q' add]. cbn [bind].
+      apply (enc_after_root true false rt rt' _ _ _ v k Ev Ev').
+    + rewrite !split_build by assumption. cbn [bind]. apply (enc_after_root false false rt rt' _ _ _ v k Ev Ev').
+Qed.
+Example tr_label_build_ex :      (* G:maj/3 -> Db:maj/3, a tritone up and respelt *)
+  wf [71]%nat (Some [109; 97; 106]%nat) [] (Some [51]%nat) /\ lang h_root [68; 98]%nat /\
+  pitch_class_to_semitone [71]%nat = Ok 7%Z /\ pitch_class_to_semitone [68; 98]%nat = Ok ((7 + 6) mod 12)%Z /\
+  build [71]%nat (Some [109; 97; 106]%nat) [] (Some [51]%nat) = [71; 58; 109; 97; 106; 47; 51]%nat.
+Proof.
+  split; [|split; [apply rmatch_iff_lang; vm_compute; reflexivity|repeat split; vm_compute; reflexivity]].
+  split; [apply rmatch_iff_lang; vm_compute; reflexivity|]. split; [right; apply rmatch_iff_lang; vm_compute; reflexivity|].
+  split; [constructor|]. cbn [basswf]. apply rmatch_iff_lang. vm_compute. reflexivity.
+Qed.
+(* G:maj/3 | N | E:min7  against  G:maj | E:min7(9), and everything a tritone up and respelt (Db / A#) *)
+Example chord_evaluate_transpose_ex :
+  let rl := [[71; 58; 109; 97; 106; 47; 51]; [78]; [69; 58; 109; 105; 110; 55]]%nat in
+  let rl' := [[68; 98; 58; 109; 97; 106; 47; 51]; [78]; [65; 35; 58; 109; 105; 110; 55]]%nat in
+  let el := [[71; 58; 109; 97; 106]; [69; 58; 109; 105; 110; 55; 40; 57; 41]]%nat in
+  let el' := [[67; 35; 58; 109; 97; 106]; [66; 98; 58; 109; 105; 110; 55; 40; 57; 41]]%nat in
+  Forall2 (tr_label 6) rl rl' /\ Forall2 (tr_label 6) el el' /\
+  exists s, chord_evaluate [(0, 2); (2, 3); (3, 5)] rl [(0, 1); (1, 6)] el = Ok s /\
+            chord_evaluate [(0, 2); (2, 3); (3, 5)] rl' [(0, 1); (1, 6)] el' = Ok s.
+Proof.
+  cbv zeta.
+  assert (H1 : Forall2 (tr_label 6) [[71; 58; 109; 97; 106; 47; 51]; [78]; [69; 58; 109; 105; 110; 55]]%nat
+                                    [[68; 98; 58; 109; 97; 106; 47; 51]; [78]; [65; 35; 58; 109; 105; 110; 55]]%nat).
+  { repeat constructor; try (vm_compute; reflexivity); intros [|]; vm_compute; reflexivity. }
+  assert (H2 : Forall2 (tr_label 6) [[71; 58; 109; 97; 106]; [69; 58; 109; 105; 110; 55; 40; 57; 41]]%nat
+                                    [[67; 35; 58; 109; 97; 106]; [66; 98; 58; 109; 105; 110; 55; 40; 57; 41]]%nat).
+  { repeat constructor; try (vm_compute; reflexivity); intros [|]; vm_compute; reflexivity. }
+  split; [exact H1|]. split; [exact H2|]. rewrite (chord_evaluate_transpose 6 _ _ _ _ _ _ H1 H2). eexists. split; [vm_compute; reflexivity|reflexivity].
+Qed.
+
 Print Assumptions overseg_underseg_swap.
 Print Assumptions seg_symmetric.
 Print Assumptions seg_error_order_refuted.
@@ -1045,3 +1345,6 @@ Print Assumptions wa_q_weights_eq.
 Print Assumptions chord_evaluate_shift.
 Print Assumptions chord_evaluate_shift_later.
 Print Assumptions chord_evaluate_shift_ok.
+Print Assumptions tr_label_build.
+Print Assumptions chord_scores_transpose.
+Print Assumptions chord_evaluate_transpose.
